@@ -161,4 +161,44 @@ let u_crlfhyp c =
      | None -> Diff "lexer out of fuel")
   | _ -> Skip
 
-let () = register [ ("e2e", u_e2e); ("eofhyp", u_eofhyp); ("crlfhyp", u_crlfhyp) ]; panic_units := !panic_units @ [ ("e2e_panic", u_e2e_panic) ]
+(* how often the hypothesis of FormatIdemProofs.format_idempotent (idem_hyp) holds on the composed run, and which of its checks
+   fails first where it does not; in both cases the composed model is run again on its own output:
+     hypothesis true  -> the second output must be the first (a theorem; re-checked here: DIFF otherwise)
+     hypothesis false -> V idem_hyp_false_<first failing check>_<idempotent|NOT_idempotent> *)
+let idem_check_names = [| "rescan_fuel"; "rescan_pieces"; "rescan_kinds"; "asm"; "ignored_first_run"; "ignored_second_run";
+                          "ml_string"; "undecided_token"; "spaces_read" |]
+let u_idemhyp c =
+  match cfg_of c with
+  | None -> Skip
+  | Some cfg ->
+    (match lex_segments (bytes_of_string c.input) with
+     | Some segs when List.length segs <= max_tokens ->
+       (match format_chain U_rewriters.alnum cfg (bytes_of_string c.input) with
+        | Inr _ -> Skip
+        | Inl out ->
+          let again = (match format_chain U_rewriters.alnum cfg out with Inl o2 -> o2 = out | Inr _ -> false) in
+          let checks = idem_hyp_checks U_rewriters.alnum cfg segs in
+          let rec first i = function [] -> -1 | b :: r -> if b then first (i + 1) r else i in
+          let k = first 0 checks in
+          if k < 0 then (if again then Ok_ else Diff "idem_hyp holds but the second run changes the output")
+          else begin
+            let detail =
+              if k <> 8 then "" else
+              (match lex_segments out with
+               | Some segs2 ->
+                 let a = fm_l4 U_rewriters.alnum segs and b = fm_l4 U_rewriters.alnum segs2 in
+                 let rec go i prev x y = match x, y with
+                   | (t, f) :: x', (_, g) :: y' ->
+                     if f.f_sp = g.f_sp then go (i + 1) (Some t) x' y'
+                     else Printf.sprintf " token %d %s(%s) after %s: first run spaces %d, second run %d (second run reads nl %d)" i (name_of_tt t.t_ty)
+                            (String.escaped (string_of_bytes t.t_content))
+                            (match prev with Some p -> name_of_tt p.t_ty | None -> "-") (int_of_n f.f_sp) (int_of_n g.f_sp) (int_of_n g.f_nl)
+                   | _, _ -> "" in
+                 go 0 None a b
+               | None -> "") in
+            Viol (Printf.sprintf "idem_hyp_false_%s_%s" idem_check_names.(k) (if again then "idempotent" else "NOT_idempotent"),
+                  "idem_hyp does not hold on the composed run" ^ detail)
+          end)
+     | _ -> Skip)
+
+let () = register [ ("e2e", u_e2e); ("eofhyp", u_eofhyp); ("crlfhyp", u_crlfhyp); ("idemhyp", u_idemhyp) ]; panic_units := !panic_units @ [ ("e2e_panic", u_e2e_panic) ]
